@@ -72,6 +72,7 @@ package hamt
 
 //@ func hamt.validateHAMTData
 //@ ensures err == nil ==> wfData(nd)
+//@ ensures only-a-shard-typed-message-is-a-shard: err == nil ==> nd.DataType.x == 5
 //@ assigns nothing
 
 //@ func hamt.log2Size
